@@ -1,23 +1,28 @@
 /-
   C19 (PANTR) — `stop()` interrupts promptly, leaving valid results.
 
-  PANTR polls the stop flag in exactly one place: `check_all_stop_conditions` at the loop head.
-  Unlike PANOC / ZeroFPR it has **no** `while (!stop_signal.stop_requested())` loop — its only inner
-  loops are the `backtrack_qub` step-size loops, which do not look at the flag.  So the statements
-  are:
+  PANTR polls the stop flag in two places: `check_all_stop_conditions` at the loop head, and the
+  condition of `backtrack_qub` — `while (!stop_requested() && L < L_max && qub_violated(i))` — the
+  step-size loop used for the initial backtracking and (up to twice) inside an iteration.  Unlike
+  PANOC / ZeroFPR it has no line-search loop.  So the statements are:
 
   * a request visible at a head check ends the solve *there* (`pantr_stop_at_head_exits`): no
     further iteration, the iterate that is current is written back (C03 applies to it);
   * a request landing anywhere inside iteration `k` (after that iteration's head poll) lets the
     iteration finish and exits at the next head with `iterations = k + 1`
     (`pantr_stop_during_iteration`) — "at most one further iteration's worth of evaluations";
-  * what bounds that work: one iteration is at most `15 + 2·b` events (problem evaluations by the
+  * once the flag is visible `backtrack_qub` makes no further call (`pantr_backtrack_noop`); with a
+    flag that is never lowered and visible from tick `t₀` on, a `backtrack_qub` entered at tick `t`
+    ends at tick `≤ max t (t₀ + 1)` (`pantr_backtrack_ticks_after_stop`), the initialisation ends at
+    tick `≤ max 4 (t₀ + 1)` (`pantr_init_ticks_after_stop`), an iteration that starts at tick `t`
+    ends at tick `≤ max (t + 15) (t₀ + 6)` (`pantr_iteration_ticks_after_stop`) and the whole solve
+    at tick `≤ t₀ + 17` (`pantr_ticks_after_stop`: the `≤ 14` non-backtracking events of the
+    iteration in flight, the next head `≤ 2`, the final callback) — independent of the number of
+    step-size halvings the quadratic upper bound would still ask for;
+  * without a request, one iteration is at most `15 + 2·b` events (problem evaluations by the
     solver, direction calls, one callback), `b` = step-size halvings in it (`pantr_iteration_events`),
     the exit adds at most 3 (`pantr_events_after_visible_stop`), and over an ordered field each
-    `backtrack_qub` loop makes `n` passes only if `L·2ⁿ⁻¹ < L_max` (`backtrack_passes_bounded`):
-    with `L > 0` and finite `L_max` at most `⌊log₂(L_max/L)⌋ + 1` passes — *independent of the stop
-    flag*.  With `L_max = ∞` the bound comes from IEEE overflow only (≈ 2100 doublings); this is
-    the one place where PANTR's promptness rests on a parameter rather than on the flag.
+    `backtrack_qub` loop makes `n` passes only if `L·2ⁿ⁻¹ < L_max` (`backtrack_passes_bounded`).
   * `Interrupted` only if the flag was visible at the last head; otherwise the natural status
     (`pantr_interrupted_or_natural`).
   * outputs after an interrupted solve satisfy the same contract as any exit:
@@ -91,34 +96,193 @@ theorem pantr_events_after_visible_stop (co : Consts α) (P : Problem α) (dir :
 theorem pantr_stop_during_iteration (co : Consts α) (P : Problem α) (dir : Direction D α)
     (pr : Params α) (stop : Nat → Bool) (hm : MonotoneStop stop) (oot : Bool) (x0 y Sig errz0 : Vec α)
     (fuel : Nat) (s : St α D) (hbusy : (headStep P pr stop oot s).2.2 = .Busy)
-    (hstop : stop (iterBody co P dir pr (headStep P pr stop oot s).1 (headStep P pr stop oot s).2.1).tick
+    (hstop : stop (iterBody co P dir pr stop (headStep P pr stop oot s).1 (headStep P pr stop oot s).2.1).tick
       = true) :
     (mainLoop co P dir pr stop oot x0 y Sig errz0 (fuel + 2) s).stats.iterations = s.k + 1 ∧
     (mainLoop co P dir pr stop oot x0 y Sig errz0 (fuel + 2) s).stats.status ≠ .Busy := by
   have hstep : mainLoop co P dir pr stop oot x0 y Sig errz0 (fuel + 2) s =
       mainLoop co P dir pr stop oot x0 y Sig errz0 (fuel + 1)
-        (iterBody co P dir pr (headStep P pr stop oot s).1 (headStep P pr stop oot s).2.1) := by
+        (iterBody co P dir pr stop (headStep P pr stop oot s).1 (headStep P pr stop oot s).2.1) := by
     conv_lhs => unfold mainLoop
     simp [hbusy]
   have := pantr_events_after_visible_stop co P dir pr stop hm oot x0 y Sig errz0 fuel _ hstop
   rw [hstep]
   refine ⟨?_, this.2.2.1⟩
-  rw [this.1, (iterBody_spec co P dir pr _ _).2.2.1, (headStep_same P pr stop oot s).2.2.1]
+  rw [this.1, (iterBody_spec co P dir pr stop _ _).2.2.1, (headStep_same P pr stop oot s).2.2.1]
 
 /-- **Work of one iteration** in events: between 4 and `15 + 2·b`, where `b` is the number of
     step-size halvings (`stepsize_backtracks`) the iteration performed. -/
 theorem pantr_iteration_events (co : Consts α) (P : Problem α) (dir : Direction D α) (pr : Params α)
+    (stop : Nat → Bool)
     (s : St α D) (eps : α) :
-    s.tick + 4 ≤ (iterBody co P dir pr s eps).tick ∧
-    (iterBody co P dir pr s eps).tick + 2 * s.stats.stepsizeBacktracks
-      ≤ s.tick + 15 + 2 * (iterBody co P dir pr s eps).stats.stepsizeBacktracks :=
-  iterBody_tick co P dir pr s eps
+    s.tick + 4 ≤ (iterBody co P dir pr stop s eps).tick ∧
+    (iterBody co P dir pr stop s eps).tick + 2 * s.stats.stepsizeBacktracks
+      ≤ s.tick + 15 + 2 * (iterBody co P dir pr stop s eps).stats.stepsizeBacktracks :=
+  iterBody_tick co P dir pr stop s eps
+
+/-! ### The step-size loops poll the flag -/
+
+/-- **Once the flag is visible `backtrack_qub` makes no further call** (initial backtracking and
+    the in-iteration ones alike: it is one lambda). -/
+theorem pantr_backtrack_noop (P : Problem α) (pr : Params α) (stop : Nat → Bool) (f : Nat)
+    (c : Iterate α) (t b : Nat) (h : stop t = true) :
+    backtrackQub P pr stop (f + 1) c t b = (c, t, b, false) :=
+  backtrackQub_stop_noop P pr stop f c t b h
+
+/-- With a flag that is never lowered and visible from tick `t₀` on, `backtrack_qub` entered at tick
+    `t` ends at tick `≤ max t (t₀ + 1)`. -/
+theorem pantr_backtrack_ticks_after_stop (P : Problem α) (pr : Params α) (stop : Nat → Bool)
+    (hm : MonotoneStop stop) (t0 : Nat) (h0 : stop t0 = true) (f : Nat) (c : Iterate α) (t b : Nat) :
+    (backtrackQub P pr stop f c t b).2.1 ≤ max t (t0 + 1) :=
+  backtrackQub_tick_bound P pr stop hm t0 h0 f c t b
+
+/-- **The initialisation is interruptible**: it ends at tick `≤ max 4 (t₀ + 1)` (`4` = Lipschitz
+    estimate `≤ 2` + first proximal-gradient step and `ψ(x̂)`, made before the first poll). -/
+theorem pantr_init_ticks_after_stop (co : Consts α) (P : Problem α) (d0 : D) (pr : Params α)
+    (stop : Nat → Bool) (hm : MonotoneStop stop) (t0 : Nat) (h0 : stop t0 = true) (x0 gV : Vec α)
+    (s : St α D) (hi : initState co P d0 pr stop x0 gV = .inr s) : s.tick ≤ max 4 (t0 + 1) := by
+  have hc : (lipschitzStage co P pr x0 gV).2.2 ≤ 2 := by
+    unfold lipschitzStage; simp only []; split_ifs <;> simp
+  unfold initState at hi
+  simp only [] at hi
+  split_ifs at hi
+  injection hi with hi; subst hi
+  simp only []
+  exact Nat.le_trans (backtrackQub_tick_bound P pr stop hm t0 h0 _ _ _ _) (by omega)
+
+theorem candidateFbe_tick_stop (P : Problem α) (pr : Params α) (stop : Nat → Bool)
+    (hm : MonotoneStop stop) (t0 : Nat) (h0 : stop t0 = true) (prox cand : Iterate α) (q : Vec α)
+    (t : Nat) : (candidateFbe P pr stop prox cand q t).2.1 ≤ max (t + 3) (t0 + 1) := by
+  unfold candidateFbe
+  simp only []
+  split_ifs
+  · exact backtrackQub_tick_bound P pr stop hm t0 h0 _ _ _ _
+  · dsimp only; omega
+
+theorem trStage_tick_stop (co : Consts α) (P : Problem α) (dir : Direction D α) (pr : Params α)
+    (stop : Nat → Bool) (hm : MonotoneStop stop) (t0 : Nat) (h0 : stop t0 = true) (s : St α D) :
+    (trStage co P dir pr stop s).tick ≤ max (s.tick + 10) (t0 + 1) := by
+  have h1 := fbsStep_tick P pr s
+  have h2 := dirInit_tick dir s (fbsStep P pr s).1 (fbsStep P pr s).2.2
+  unfold trStage
+  simp only []
+  split_ifs
+  · unfold trAttempt
+    simp only []
+    generalize htr : trustRegionStep co dir _ _ _ _ _ = tr
+    have h3 := trustRegionStep_tick co dir (dirInit dir s (fbsStep P pr s).1 (fbsStep P pr s).2.2).1
+      (dirInit dir s (fbsStep P pr s).1 (fbsStep P pr s).2.2).2.2 (fbsStep P pr s).1 s.Delta s.q
+    rw [htr] at h3
+    split_ifs
+    · have h4 := candidateFbe_tick_stop P pr stop hm t0 h0 (fbsStep P pr s).1 s.cand tr.2.2.1 tr.2.1
+      simp only []
+      omega
+    · simp only []; omega
+  · simp only []; omega
+
+theorem acceptStage_tick_stop (P : Problem α) (dir : Direction D α) (pr : Params α)
+    (stop : Nat → Bool) (hm : MonotoneStop stop) (t0 : Nat) (h0 : stop t0 = true) (m : Mid α D)
+    (t : Nat) : (acceptStage P dir pr stop m t).tick ≤ max (t + 4) (t0 + 4) := by
+  unfold acceptStage
+  simp only []
+  by_cases hc : pr.computeRatioUsingNewStepsize
+  · simp only [hc, Bool.not_true, Bool.false_eq_true, if_false]
+    split_ifs <;> dsimp only <;> omega
+  · simp only [hc, Bool.not_false, if_true]
+    have := backtrackQub_tick_bound P pr stop hm t0 h0 pr.qubFuel (evalPsiHat P m.cand) (t + 1) 0
+    split_ifs <;> dsimp only <;> omega
+
+theorem rejectStage_tick_stop (P : Problem α) (dir : Direction D α) (pr : Params α)
+    (stop : Nat → Bool) (hm : MonotoneStop stop) (t0 : Nat) (h0 : stop t0 = true) (m : Mid α D)
+    (t : Nat) : (rejectStage P dir pr stop m t).tick ≤ max (t + 4) (t0 + 4) := by
+  unfold rejectStage
+  simp only []
+  have := backtrackQub_tick_bound P pr stop hm t0 h0 pr.qubFuel (evalPsiHat P m.prox) (t + 1) 0
+  split_ifs <;> dsimp only <;> omega
+
+/-- **Work of one iteration once a stop request is pending**: with a flag that is never lowered and
+    visible from tick `t₀` on, an iteration that starts at tick `t` ends at tick
+    `≤ max (t + 15) (t₀ + 6)` — `15` = its events other than step-size halvings; `t₀ + 6`: a request
+    landing inside the candidate's `backtrack_qub` is followed by the pass in flight (`≤ t₀ + 1`),
+    the progress callback, `ψ(x̂)` of the fallback step (whose `backtrack_qub` then does nothing) and
+    `≤ 3` direction / prox calls.  No term in the number of halvings. -/
+theorem pantr_iteration_ticks_after_stop (co : Consts α) (P : Problem α) (dir : Direction D α)
+    (pr : Params α) (stop : Nat → Bool) (hm : MonotoneStop stop) (t0 : Nat) (h0 : stop t0 = true)
+    (s : St α D) (eps : α) :
+    (iterBody co P dir pr stop s eps).tick ≤ max (s.tick + 15) (t0 + 6) := by
+  have h1 := trStage_tick_stop co P dir pr stop hm t0 h0 s
+  have h2 := acceptStage_tick_stop P dir pr stop hm t0 h0 (trStage co P dir pr stop s)
+    ((trStage co P dir pr stop s).tick + 1)
+  have h3 := rejectStage_tick_stop P dir pr stop hm t0 h0 (trStage co P dir pr stop s)
+    ((trStage co P dir pr stop s).tick + 1)
+  unfold iterBody
+  simp only []
+  split_ifs <;> omega
+
+/-- Tick bound for the main loop: with a flag that is never lowered and visible from tick `t₀` on,
+    a solve that is at a loop head at tick `s.tick` ends at tick `≤ max (s.tick + 3) (t₀ + 17)`.
+    `3` = head (`≤ 2`) + final callback; `17`: an iteration whose head polled the flag at a tick
+    `≤ t₀ − 1` ends at tick `≤ t₀ + 14` (`≤ 15` events other than halvings), then the next head
+    (`≤ 2`) and the final callback. -/
+theorem pantr_mainLoop_ticks_after_stop (co : Consts α) (P : Problem α) (dir : Direction D α)
+    (pr : Params α) (stop : Nat → Bool) (hm : MonotoneStop stop) (t0 : Nat) (h0 : stop t0 = true)
+    (oot : Bool) (x0 y Sig errz0 : Vec α) (fuel : Nat) (s : St α D) :
+    (mainLoop co P dir pr stop oot x0 y Sig errz0 fuel s).ticks ≤ max (s.tick + 3) (t0 + 17) := by
+  induction fuel generalizing s with
+  | zero =>
+    simp only [mainLoop]
+    rw [(exitBlock_fields co pr s s.stats.eps .Exception x0 y Sig errz0).2.2.2.2.2.1]
+    omega
+  | succ f ih =>
+    have hh := headStep_same P pr stop oot s
+    by_cases hst : stop (headStep P pr stop oot s).1.tick = true
+    · have he := (pantr_stop_at_head_exits co P dir pr stop oot x0 y Sig errz0 f s hst).2.1
+      rw [he, (exitBlock_fields co pr _ _ _ x0 y Sig errz0).2.2.2.2.2.1]
+      omega
+    · have hlt : (headStep P pr stop oot s).1.tick < t0 := by
+        apply Nat.lt_of_not_le
+        intro hc
+        exact hst (hm t0 _ hc h0)
+      unfold mainLoop
+      simp only []
+      split_ifs with hb
+      · rw [(exitBlock_fields co pr _ _ _ x0 y Sig errz0).2.2.2.2.2.1]
+        omega
+      · have hb' := pantr_iteration_ticks_after_stop co P dir pr stop hm t0 h0
+          (headStep P pr stop oot s).1 (headStep P pr stop oot s).2.1
+        have := ih (iterBody co P dir pr stop (headStep P pr stop oot s).1 (headStep P pr stop oot s).2.1)
+        omega
+
+/-- **At most one further iteration's worth of evaluations after `stop()`, wherever it lands**
+    (initialisation and step-size loops included): if the flag, never lowered, is visible from tick
+    `t₀` on, the solve ends at tick `≤ max 7 (t₀ + 17)` — in particular `≤ t₀ + 17`. -/
+theorem pantr_ticks_after_stop (co : Consts α) (P : Problem α) (dir : Direction D α) (d0 : D)
+    (pr : Params α) (stop : Nat → Bool) (hm : MonotoneStop stop) (t0 : Nat) (h0 : stop t0 = true)
+    (oot : Bool) (x0 y Sig errz0 gV : Vec α) :
+    (run co P dir d0 pr stop oot x0 y Sig errz0 gV).ticks ≤ t0 + 17 := by
+  unfold run
+  cases hi : initState co P d0 pr stop x0 gV with
+  | inl t =>
+    simp only []
+    have hc : (lipschitzStage co P pr x0 gV).2.2 ≤ 2 := by
+      unfold lipschitzStage; simp only []; split_ifs <;> simp
+    unfold initState at hi
+    simp only [] at hi
+    split_ifs at hi
+    injection hi with hi
+    omega
+  | inr s =>
+    simp only []
+    have h1 := pantr_init_ticks_after_stop co P d0 pr stop hm t0 h0 x0 gV s hi
+    have h2 := pantr_mainLoop_ticks_after_stop co P dir pr stop hm t0 h0 oot x0 y Sig errz0
+      (pr.maxIter + 1) s
+    omega
 
 /-- `Interrupted` is reported only if the flag was visible at the last head check; a solve whose
     flag is never visible ends with its natural status. -/
 theorem pantr_interrupted_or_natural (co : Consts α) (P : Problem α) (dir : Direction D α) (d0 : D)
     (pr : Params α) (stop : Nat → Bool) (oot : Bool) (x0 y Sig errz0 gV : Vec α) (s : St α D)
-    (hi : initState co P d0 pr x0 gV = .inr s) (hnever : ∀ t, stop t = false) :
+    (hi : initState co P d0 pr stop x0 gV = .inr s) (hnever : ∀ t, stop t = false) :
     (run co P dir d0 pr stop oot x0 y Sig errz0 gV).stats.status ≠ .Interrupted := by
   intro h
   have := C06_Pantr.pantr_interrupted_only_if co P dir d0 pr stop oot x0 y Sig errz0 gV s hi h
@@ -133,18 +297,20 @@ variable {α : Type} [Field α] [LinearOrder α] [IsStrictOrderedRing α] [RealL
 /-- `backtrack_qub` adds `n` to `stepsize_backtracks` and costs `2n` evaluations; `n ≥ 1` passes are
     possible only while `L·2ⁿ⁻¹ < L_max`.  Nothing else — neither the problem nor the stop flag —
     enters the bound. -/
-theorem backtrack_passes_bounded (P : Problem α) (pr : Params α) (f : Nat) (c : Iterate α) (t b : Nat) :
-    ∃ n : Nat, (backtrackQub P pr f c t b).2.2.1 = b + n ∧
-      (backtrackQub P pr f c t b).2.1 = t + 2 * n ∧ (1 ≤ n → c.L * 2 ^ (n - 1) < pr.Lmax) := by
-  obtain ⟨n, h1, -, -, h4⟩ := backtrackQub_pow P pr f c t b
-  have ht := (backtrackQub_tick P pr f c t b).1
+theorem backtrack_passes_bounded (P : Problem α) (pr : Params α)
+    (stop : Nat → Bool) (f : Nat) (c : Iterate α) (t b : Nat) :
+    ∃ n : Nat, (backtrackQub P pr stop f c t b).2.2.1 = b + n ∧
+      (backtrackQub P pr stop f c t b).2.1 = t + 2 * n ∧ (1 ≤ n → c.L * 2 ^ (n - 1) < pr.Lmax) := by
+  obtain ⟨n, h1, -, -, h4⟩ := backtrackQub_pow P pr stop f c t b
+  have ht := (backtrackQub_tick P pr stop f c t b).1
   exact ⟨n, h1, by omega, h4⟩
 
 /-- Explicit form: with `L ≥ L_min > 0` no loop makes more than `n` passes once `L_min·2ⁿ⁻¹ ≥ L_max`. -/
-theorem backtrack_passes_le (P : Problem α) (pr : Params α) (f : Nat) (c : Iterate α) (t b N : Nat)
+theorem backtrack_passes_le (P : Problem α) (pr : Params α)
+    (stop : Nat → Bool) (f : Nat) (c : Iterate α) (t b N : Nat)
     (hL : 0 < c.L) (hN : pr.Lmax ≤ c.L * 2 ^ N) :
-    (backtrackQub P pr f c t b).2.2.1 ≤ b + N := by
-  obtain ⟨n, h1, -, h3⟩ := backtrack_passes_bounded P pr f c t b
+    (backtrackQub P pr stop f c t b).2.2.1 ≤ b + N := by
+  obtain ⟨n, h1, -, h3⟩ := backtrack_passes_bounded P pr stop f c t b
   rw [h1]
   by_contra hlt
   have hn : N + 1 ≤ n := by omega
@@ -168,6 +334,17 @@ example : (solve 3 false 1 9).stats.iterations = 1 ∧ (solve 3 false 1 9).stats
   decide
 example : MonotoneStop (fun t => decide (t ≥ 9)) := by
   intro a b hab h; simp at h ⊢; omega
+
+/-- an instance whose initial `backtrack_qub` runs to `L_max` (`ψ(x̂)` huge, `L_0 = 1`, `L_max = 16`:
+    4 halvings, 12 events in all); a request landing inside that loop (flag visible from tick 4, i.e.
+    during the first halving) ends it after that halving, and the first head returns `Interrupted` at
+    tick 6 ≤ 4 + 17 -/
+example :
+    let r := fun k : Nat => run co { P with psi := fun _ => (100000000, []) } (dir 1) ()
+      { pr 3 false with L0 := 1, Lmax := 16 } (fun t => k != 0 && t ≥ k) false [5] [] [] [] [0]
+    (r 0).stats.stepsizeBacktracks = 4 ∧ (r 0).ticks = 12 ∧
+    (r 4).stats.stepsizeBacktracks = 1 ∧ (r 4).ticks = 6 ∧ (r 4).stats.status = .Interrupted ∧
+    (r 4).stats.iterations = 0 ∧ (r 4).fuelOut = false := by decide
 
 end examples
 
